@@ -260,10 +260,49 @@ def write_to_real_file(write, binary=False):
 
 # ------------------------------------------------------------------ EAM through the API
 
+REFIT = {"scale": 1.0, "objs": {}}
+
+
+class Refit(object):
+  """A callable whose behaviour depends on state that is refined between two writes (a fitting loop): the same object,
+  first scaled by REFIT['scale'] = 0.37 (the table written then is thrown away), then by exactly 1.0."""
+
+  def __init__(self, f):
+    self._f = f
+    if hasattr(f, "deriv"):
+      self.deriv = lambda r: REFIT["scale"] * f.deriv(r)
+    if hasattr(f, "deriv2"):
+      self.deriv2 = lambda r: REFIT["scale"] * f.deriv2(r)
+
+  def __call__(self, r):
+    return REFIT["scale"] * self._f(r)
+
+
+def refit_begin():
+  REFIT["scale"] = 0.37
+  REFIT["objs"].clear()
+
+
+def refit_end():
+  REFIT["scale"] = 1.0
+
+
+def refit_done():
+  REFIT["scale"] = 1.0
+  REFIT["objs"].clear()
+
+
 def eam_api_objects(model, wrap=None):
   """(pair Potential list, EAMPotential list in element order[, dipoles, quadrupoles])
   composed through the Python API.  Undeclared FS densities are given explicit zero
   functions (the API requires complete dictionaries)."""
+  if model.get("api_refit"):
+    # the SAME Potential / EAMPotential / function objects serve the throw-away write and the real one
+    if id(model) not in REFIT["objs"]:
+      m2 = dict(model)
+      m2.pop("api_refit")
+      REFIT["objs"][id(model)] = eam_api_objects(m2, (lambda f, tag: Refit(wrap(f, tag))) if wrap else (lambda f, tag: Refit(f)))
+    return [list(x) for x in REFIT["objs"][id(model)]]
   import spec
   from atsim.potentials import Potential, EAMPotential
   from atsim.potentials import potentialforms as pf
@@ -352,6 +391,12 @@ class OnDemandMapping(object):
 
   def get(self, k, default=None):
     return self[k] if k in self._d else default
+
+  def items(self):
+    return [(k, self[k]) for k in self._d]
+
+  def values(self):
+    return [self[k] for k in self._d]
 
 
 def _call_with(f, x):
